@@ -714,7 +714,8 @@ BadRes(s, ns, op, res) ==
 AgreeChain(ns, chain) ==
   \A i \in DOMAIN chain :
     LET e == chain[i] IN
-      e[4] <= Cardinality(DOMAIN PropsOf(ns, e[1], e[2], e[3])) + 3
+      /\ OwnerExists(ns, e[1], e[2], e[3])      \* a cell the model does not have is a mismatch, not an error
+      /\ e[4] <= Cardinality(DOMAIN PropsOf(ns, e[1], e[2], e[3])) + 3
 
 AgreeMore(s, ns, op, f, v) == TRUE
 
